@@ -251,6 +251,13 @@ const BAD_HANDLERS: &[(&str, &str)] = &[
     ("unannotated-parameter", "onFiredI: function(a) { t0.ti = 1 }"),
     ("handler-as-map", "onFired.x: 1"),
     ("unknown-signal", "onNoSuchThing: t0.ti = 1"),
+    // types that a static_cast or a variant cast would convert are not "compatible" either
+    ("castable-parameter-double-for-int", "onFiredI: function(a: double) { t0.td = a }"),
+    ("castable-parameter-uint-for-int", "onFiredI: function(a: uint) { t0.tu = a }"),
+    ("castable-parameter-bool-for-int", "onFiredI: function(a: bool) { t0.tb = a }"),
+    ("castable-parameter-int-for-bool", "onFiredB: function(a: int) { t0.ti = a }"),
+    ("castable-parameter-int-for-double", "onFiredD: function(a: int) { t0.ti = a }"),
+    ("castable-parameter-int-for-string", "onFiredIS: function(a: int, b: int) { t0.ti = b }"),
     ("default-argument-pair-plus-overload", "onMix: t0.ti = 1"),
     ("default-argument-pair-plus-overload-with-parameter", "onMix: function(a: int) { t0.ti = a }"),
     ("too-many-parameters-for-two", "onRng: function(a: int, b: int, c: int) { t0.ti = a }"),
@@ -333,7 +340,7 @@ pub fn run(env: &Env, known: &Known, started: Instant, replayed: u64, replay_vio
     rr.violations.append(&mut rej);
     let ev = Evidence {
         env, pid: PID, level: "exploration",
-        rule: "documents with 1-4 generated on<Signal> handlers on VSig objects (signals with 0, 1 and 2 arguments, a default-argument pair trig()/trig(bool)) in all body forms (bare expression, block, function / arrow with 0..n typed parameters), bodies from the statement grammar (property writes on other objects, slot and invokable calls with computed arguments incl. a call result as argument, console.log/debug/info/warn/error, if/else, switch, early return, locals). Static: exactly one connect per handler in a setup function, sender = the declaring object, QOverload<all argument types of the longest variant>, lambda parameters = the declared parameter types in order. Dynamic: the header is compiled against the API model and run; after setup() and after each of up to ~20 steps (signal emissions with generated arguments, source-property changes, emissions of signals nobody handles) the trace of setter/method/log calls recorded by the mock must equal the reference interpreter's trace of the handler body exactly (object, member, argument values, order), be empty where no handler applies, and every VDst property must have the interpreter's value. A fixed catalogue of 13 invalid handlers (overloaded signal, non-signal, too many / incompatible / unannotated parameters, handler as map, unknown signal) must be rejected with an error inside the handler. Non-trivial = document whose emissions produced two different traces or that has a handler declaring fewer parameters than the signal carries.",
+        rule: "documents with 1-4 generated on<Signal> handlers on VSig objects (signals with 0, 1 and 2 arguments, a default-argument pair trig()/trig(bool)) in all body forms (bare expression, block, function / arrow with 0..n typed parameters), bodies from the statement grammar (property writes on other objects, slot and invokable calls with computed arguments incl. a call result as argument, console.log/debug/info/warn/error, if/else, switch, early return, locals). Static: exactly one connect per handler in a setup function, sender = the declaring object, QOverload<all argument types of the longest variant>, lambda parameters = the declared parameter types in order. Dynamic: the header is compiled against the API model and run; after setup() and after each of up to ~20 steps (signal emissions with generated arguments, source-property changes, emissions of signals nobody handles) the trace of setter/method/log calls recorded by the mock must equal the reference interpreter's trace of the handler body exactly (object, member, argument values, order), be empty where no handler applies, and every VDst property must have the interpreter's value. A fixed catalogue of 19 invalid handlers (overloaded signal, non-signal, too many / incompatible / castable-but-different / unannotated parameters, handler as map, unknown signal) must be rejected with an error inside the handler. Non-trivial = document whose emissions produced two different traces or that has a handler declaring fewer parameters than the signal carries.",
         assumptions: vec!["signal emission order and direct-connection semantics of the mock follow Qt's documented behaviour for same-thread connections".into()],
         extra: json!({}),
     };
